@@ -154,4 +154,5 @@ CANARIES = [
      'old': "        if glom_debug:\n            raise\n", 'new': ""},
     {'name': 'wrap: GlomError first in bases', 'module': 'core', 'only': ['core.GlomError.wrap'], 'expect': ['core.GlomError.wrap'],
      'old': "else (exc_type, GlomError)", 'new': "else (GlomError, exc_type)"},
+    {'name': 'T attribute step catches TypeError too', 'module': 'core', 'only': ['C04.except-sites'], 'expect': ['C04.except-sites'], 'old': '                cur = getattr(cur, arg)\n            except AttributeError as e:', 'new': '                cur = getattr(cur, arg)\n            except (AttributeError, TypeError) as e:'},
 ]
